@@ -104,8 +104,9 @@ def random_programs(count, length, seed):
     return out
 
 
-def replay_and_judge(run, label, programs, asan=False):
-    """returns the number of programs judged"""
+def replay_and_judge(run, label, programs, asan=False, law=True):
+    """returns the number of programs judged.  law=False: result differences are reported as model drift only (the caller's
+    property is about crashes, which kill the driver and are reported by run.drive)"""
     if not programs:
         return 0
     wd = os.path.join(tla.WORK, f'{run.pid}-{label}')
@@ -127,7 +128,7 @@ def replay_and_judge(run, label, programs, asan=False):
         grade, k = (m.group(1), int(m.group(2))) if m else ('law', len(c['calls']))
         what = (f'lazy iterator: call {k} ({c["calls"][k - 1]["op"]}) of a {len(c["calls"])}-call program returned '
                 f'{c["calls"][k - 1]["res"]}, which the specification (IterSem!Step) does not allow')
-        if grade == 'drift':
+        if grade == 'drift' or not law:
             # the model of what happens BETWEEN two __next__ calls no longer matches the code; no listed property fixes that
             # behaviour, so this is reported, not alarmed on (DESIGN.md section 4, "iterator machine")
             d = run.extra.setdefault('iter_spec_drift', {'count': 0, 'examples': []})
